@@ -1,6 +1,7 @@
 use crate::engine::*;
 use serde_json::Value;
 
+pub mod incontext;
 pub mod c01;
 pub mod c02;
 pub mod c03;
@@ -49,6 +50,9 @@ pub fn run(ctx: &Ctx) -> Option<PropReport> {
 }
 
 pub fn replay(ctx: &Ctx, sub: &str, case: &Value) -> Result<(), Fail> {
+    if sub == "in-program-context" {
+        return incontext::replay(ctx, case);
+    }
     match ctx.prop.as_str() {
         "C01" => c01::replay(ctx, sub, case),
         "C02" => c02::replay(ctx, sub, case),
